@@ -95,6 +95,8 @@ type Env struct {
 	After    []func() // run after the bubble has ended (real time available)
 	Log      []string // event log (determinism self-test)
 	Logging  bool
+
+	inTickRetry bool
 }
 
 // Violate records the first violation of the run.
